@@ -34,6 +34,7 @@ type Env struct {
 	// HonourCancel: resolvers return ctx.Err() when they observe a cancelled context.
 	HonourCancel bool
 	Panics       int
+	WrongHook    int // runs of the server-wide decoy hook (Case.OpRecover)
 	// Intercept: the fault-injecting field interceptor is active (C04)
 	Intercept bool
 	// Sub scripts for subscription fields: list of steps per path.
